@@ -17,6 +17,7 @@ package s2
 import (
 	"bufio"
 	"encoding/binary"
+	"errors"
 	"io"
 	"math"
 )
@@ -202,6 +203,18 @@ func (d *decoder) readFloat64() float64 {
 	buf := d.buffer()
 	_, d.err = io.ReadFull(d.r, buf)
 	return math.Float64frombits(binary.LittleEndian.Uint64(buf))
+}
+
+// readCoordinate reads one coordinate of a point. NaN and infinities are
+// rejected: they cannot be coordinates of a point on the sphere, and the exact
+// predicates cannot represent them.
+func (d *decoder) readCoordinate() float64 {
+	x := d.readFloat64()
+	if d.err == nil && (math.IsNaN(x) || math.IsInf(x, 0)) {
+		d.err = errors.New("invalid point coordinate (NaN or infinity)")
+		return 0
+	}
+	return x
 }
 
 func (d *decoder) readUvarint() (x uint64) {
